@@ -27,7 +27,12 @@ fn main() {
         }));
         let out = match r {
             Ok(Ok(s)) => serde_json::json!({ "ok": s }),
-            Ok(Err(e)) => serde_json::json!({ "err": format!("{:?}: {}", e.kind(), e) }),
+            Ok(Err(e)) => {
+                let range = e.range();
+                let valid = range.clone().map(|r| src.get(r).is_some());
+                serde_json::json!({ "err": format!("{:?}: {}", e.kind(), e), "line": e.line(),
+                    "range": range.map(|r| vec![r.start, r.end]), "range_valid": valid, "src_len": src.len() })
+            }
             Err(p) => {
                 let msg = p
                     .downcast_ref::<String>()
